@@ -243,6 +243,8 @@ def effect_pattern(E):
             q = {'kind': 'Sampler2D', 'id': p['sid'], 'surface_id': p['surface'], 'minfilter': p['minfilter'],
                  'magfilter': p['magfilter']}
         P['params'].append(q)
+    if E.get('uses_direct'):
+        P['params'] = Any         # the loader adds a surface and a sampler per image named directly
     transparent_value = Any
     for name, val in E['props']:
         if val[0] == 'color':
